@@ -135,7 +135,10 @@ KINDS = ["gaussian", "gaussian_default", "gaussian_arraycov", "gaussian_cplx", "
          "poisson_u8", "poisson_i32", "categorical_i32", "categorical_u8",
          # non-default constructor keywords; freeze / amend combinations with coupled forward models
          "gaussian_stdonly", "gaussian_covonly", "studentt_arraydof", "vcstudentt_arraydof", "categorical_axis0",
-         "freeze_coupled_gauss", "freeze_coupled_poisson", "freeze_coupled_first", "amend_amend", "freeze_amend_amend"]
+         "freeze_coupled_gauss", "freeze_coupled_poisson", "freeze_coupled_first", "amend_amend", "freeze_amend_amend",
+         # derivative rules of the custom matrix functions (sqrtm, logm, solve) and a 3-d covariance (in 2-d the
+         # eigenvector matrix of eigh can be symmetric, which hides transposition errors)
+         "matfun_rules", "ndvcg_cov3", "ndvcg_prec3"]
 # (float32 data declares a float32 domain; evaluating it at float64 points is a dtype mismatch of the caller
 #  -- jax.linear_transpose refuses it -- so single precision is exercised on the classic side only, C11)
 EXACT_PULLBACK = {"gaussian", "gaussian_default", "gaussian_arraycov", "gaussian_cplx", "gaussian_tree", "studentt", "poisson",
@@ -202,12 +205,12 @@ def make(kind, seed):
         dof = logu(rng, 1.0, 20)
         I["lh"] = jft.VariableCovarianceStudentT(jnp.asarray(rng.normal(size=n)), dof)
         I["p"] = (jnp.asarray(rng.normal(size=n)), jnp.asarray(np.exp(rng.normal(size=n) * 0.5)))
-    elif kind in ("ndvcg_cov", "ndvcg_prec", "ndvcg_batched"):
-        dim = 2
+    elif kind in ("ndvcg_cov", "ndvcg_prec", "ndvcg_batched", "ndvcg_cov3", "ndvcg_prec3"):
+        dim = 3 if kind.endswith("3") else 2
         bshape = (2,) if kind == "ndvcg_batched" else ()
         d = rng.normal(size=bshape + (dim,))
         mat = np.array([spd(rng, dim) for _ in range(int(np.prod(bshape, dtype=int)))]).reshape(bshape + (dim, dim))
-        I["lh"] = jft.NDVariableCovarianceGaussian(jnp.asarray(d), covariance=(kind != "ndvcg_prec"))
+        I["lh"] = jft.NDVariableCovarianceGaussian(jnp.asarray(d), covariance=(not kind.startswith("ndvcg_prec")))
         I["p"] = (jnp.asarray(rng.normal(size=bshape + (dim,))), jnp.asarray(mat))
     elif kind in ("categorical", "categorical_batched"):
         rows, K = (1, 3) if kind == "categorical" else (2, 3)
@@ -524,26 +527,83 @@ def expected_pullback(kind, seed):
             acc = acc + w * (mm["J"].T @ mm["J"])
         M = mats(jft.VariableCovarianceGaussian(jnp.asarray([nodes[0][0]])), p, which="M")["M"]
         return M, acc, None
-    dim = 2
-    cov = kind != "ndvcg_prec"
+    dim = 3 if kind.endswith("3") else 2
+    cov = not kind.startswith("ndvcg_prec")
     mat, mean = spd(rng, dim), rng.normal(size=dim)
     p = (jnp.asarray(mean), jnp.asarray(mat))
     ch = np.linalg.cholesky(mat if cov else np.linalg.inv(mat))
+    if dim == 3:
+        ghx, ghw = _gh(3)                 # J is affine in the datum: a 3-node rule is exact for J^T J
     acc = 0
-    for a, wa in zip(ghx, ghw):
-        for b, wb in zip(ghx, ghw):
-            mm = mats(jft.NDVariableCovarianceGaussian(jnp.asarray(mean + ch @ np.array([a, b])), covariance=cov), p, which="J")
-            acc = acc + wa * wb * (mm["J"].T @ mm["J"])
+    for z in itertools.product(range(len(ghx)), repeat=dim):
+        w = float(np.prod([ghw[i] for i in z]))
+        dz = np.array([ghx[i] for i in z])
+        mm = mats(jft.NDVariableCovarianceGaussian(jnp.asarray(mean + ch @ dz), covariance=cov), p, which="J")
+        acc = acc + w * (mm["J"].T @ mm["J"])
     M = mats(jft.NDVariableCovarianceGaussian(jnp.asarray(mean), covariance=cov), p, which="M")["M"]
-    S = np.eye(6)
-    S[3, 3] = S[4, 4] = S[3, 4] = S[4, 3] = 0.5
-    # tangents that commute with the matrix parameter (span{I, mat}) + the mean block: there the
+    # projector on symmetric matrix tangents: (1 + transposition) / 2 on the matrix block
+    nn = dim + dim * dim
+    S = np.eye(nn)
+    K = np.zeros((dim * dim, dim * dim))
+    for i in range(dim):
+        for j in range(dim):
+            K[i * dim + j, j * dim + i] = 1.0
+    S[dim:, dim:] = (np.eye(dim * dim) + K) / 2
+    # tangents that commute with the matrix parameter (polynomials in mat) + the mean block: there the
     # transformation 0.5*logm / sqrtm-solve reproduces the metric exactly in the data average
-    B = np.zeros((6, 4))
-    B[0, 0] = B[1, 1] = 1.0
-    B[2:, 2] = np.eye(dim).reshape(-1)
-    B[2:, 3] = mat.reshape(-1)
+    B = np.zeros((nn, dim + dim))
+    B[:dim, :dim] = np.eye(dim)
+    for k in range(dim):
+        B[dim:, dim + k] = np.linalg.matrix_power(mat, k).reshape(-1)
     return S @ M @ S, S @ acc @ S, B
+
+
+def matfun_rules(seed):
+    """Derivative rules of nifty.re.tree_math sqrtm / logm / solve on dense SPD matrices (dim 2, 3, 4)
+    against the identities every derivative of these functions satisfies and against central differences."""
+    import jax
+    import jax.numpy as jnp
+    from nifty.re.tree_math import logm, solve, sqrtm
+    rng = krng("matfun_rules", seed)
+    fails = []
+    for dim in (2, 3, 4):
+        Mx = spd(rng, dim)
+        dM = rng.normal(size=(dim, dim))
+        dM = dM + dM.T
+        Mj, dMj = jnp.asarray(Mx), jnp.asarray(dM)
+        nrm = float(np.linalg.norm(dM))
+        # sqrtm: S S = M;  derivative X solves the Sylvester equation S X + X S = dM
+        S, X = (np.asarray(a) for a in jax.jvp(sqrtm, (Mj,), (dMj,)))
+        if not close(S @ S, Mx, 1e-10, atol=1e-12):
+            fails.append(("sqrtm_value", {"dim": dim, "max |S S - M|": float(np.max(np.abs(S @ S - Mx)))}))
+        if not close(S @ X + X @ S, dM, 1e-9, atol=1e-11 * nrm):
+            fails.append(("sqrtm_jvp", {"dim": dim, "max |S X + X S - dM|": float(np.max(np.abs(S @ X + X @ S - dM))), "M": Mx.tolist(), "dM": dM.tolist()}))
+        # reverse mode is the transpose of forward mode
+        W = rng.normal(size=(dim, dim))
+        _, vjp = jax.vjp(sqrtm, Mj)
+        lhs, rhs = float(np.sum(W * X)), float(np.sum(np.asarray(vjp(jnp.asarray(W))[0]) * dM))
+        if not close(lhs, rhs, 1e-9, atol=1e-11 * nrm):
+            fails.append(("sqrtm_vjp", {"dim": dim, "<W, jvp(dM)>": lhs, "<vjp(W), dM>": rhs}))
+        # logm: central differences, and d logm(M)[M] = 1
+        h = 1e-5
+        Lg, dL = (np.asarray(a) for a in jax.jvp(logm, (Mj,), (dMj,)))
+        fd = (np.asarray(logm(jnp.asarray(Mx + h * dM))) - np.asarray(logm(jnp.asarray(Mx - h * dM)))) / (2 * h)
+        if not close(dL, fd, 1e-6, atol=1e-7 * nrm):
+            fails.append(("logm_jvp", {"dim": dim, "max |jvp - fd|": float(np.max(np.abs(dL - fd)))}))
+        dLM = np.asarray(jax.jvp(logm, (Mj,), (Mj,))[1])
+        if not close(dLM, np.eye(dim), 1e-9, atol=1e-10):
+            fails.append(("logm_jvp", {"dim": dim, "d logm(M)[M] - 1": float(np.max(np.abs(dLM - np.eye(dim))))}))
+        fdS = (np.asarray(sqrtm(jnp.asarray(Mx + h * dM))) - np.asarray(sqrtm(jnp.asarray(Mx - h * dM)))) / (2 * h)
+        if not close(X, fdS, 1e-6, atol=1e-7 * nrm):
+            fails.append(("sqrtm_jvp", {"dim": dim, "max |jvp - fd|": float(np.max(np.abs(X - fdS)))}))
+        # solve(A, b): A x = b;  A dx + dA x = db
+        bvec, db = rng.normal(size=dim), rng.normal(size=dim)
+        xs, dx = (np.asarray(a) for a in jax.jvp(lambda A, b_: solve(A, b_), (Mj, jnp.asarray(bvec)), (dMj, jnp.asarray(db))))
+        if not close(Mx @ xs, bvec, 1e-10, atol=1e-12):
+            fails.append(("solve_value", {"dim": dim}))
+        if not close(Mx @ dx + dM @ xs, db, 1e-9, atol=1e-11 * (1 + nrm)):
+            fails.append(("solve_jvp", {"dim": dim, "max |A dx + dA x - db|": float(np.max(np.abs(Mx @ dx + dM @ xs - db)))}))
+    return fails
 
 
 # ---------------------------------------------------------------------------------------------------
@@ -553,6 +613,8 @@ def run_instance(kind, seed, with_expectations=True):
     import jax
     import jax.numpy as jnp
     fails = []
+    if kind == "matfun_rules":
+        return matfun_rules(seed)
     I = make(kind, seed)
     lh, p = I["lh"], I["p"]
     cat = kind.startswith("categorical")
@@ -655,7 +717,7 @@ def run_instance(kind, seed, with_expectations=True):
             Mf, Fi = fx
             if not close(Mf, Fi, 1e-6, atol=1e-8 * (1 + float(np.max(np.abs(Mf))))):
                 fails.append(("fisher", {"metric": np.asarray(Mf).tolist(), "E[score score^T]": np.asarray(Fi).tolist()}))
-        if kind in ("vcg_real", "vcg_cplx", "ndvcg_cov", "ndvcg_prec"):
+        if kind in ("vcg_real", "vcg_cplx", "ndvcg_cov", "ndvcg_prec", "ndvcg_cov3", "ndvcg_prec3"):
             Mv, Ev, B = expected_pullback(kind, seed)
             at = 1e-10 * (1 + float(np.max(np.abs(Mv))))
             if B is None:
@@ -663,16 +725,17 @@ def run_instance(kind, seed, with_expectations=True):
                     fails.append(("expected_pullback", {"metric": np.asarray(Mv).tolist(), "E[J^T J]": np.asarray(Ev).tolist()}))
             else:
                 # N-d: exact on the mean block and on tangents commuting with the matrix parameter ...
-                gross = np.linalg.norm(Ev - Mv, 2) > 0.15 * np.linalg.norm(Mv[2:, 2:], 2)
+                nd = 3 if kind.endswith("3") else 2
+                gross = np.linalg.norm(Ev - Mv, 2) > 0.15 * np.linalg.norm(Mv[nd:, nd:], 2)
                 if not close(B.T @ Mv @ B, B.T @ Ev @ B, 1e-8, atol=at) or gross:
                     fails.append(("expected_pullback", {"restricted metric": (B.T @ Mv @ B).tolist(), "restricted E[J^T J]": (B.T @ Ev @ B).tolist(),
                                                         "spectral deviation": float(np.linalg.norm(Ev - Mv, 2))}))
                 # ... and only approximately elsewhere (log-Euclidean vs affine-invariant geometry): open known finding
                 elif not close(Mv, Ev, 1e-8, atol=at):
                     fails.append(("expected_pullback_noncommuting",
-                                  {"eig metric (matrix block)": np.linalg.eigvalsh(Mv[2:, 2:]).tolist(),
-                                   "eig E[J^T J] (matrix block)": np.linalg.eigvalsh(Ev[2:, 2:]).tolist(),
-                                   "relative spectral deviation": float(np.linalg.norm(Ev - Mv, 2) / np.linalg.norm(Mv[2:, 2:], 2))}))
+                                  {"eig metric (matrix block)": np.linalg.eigvalsh(Mv[nd:, nd:]).tolist(),
+                                   "eig E[J^T J] (matrix block)": np.linalg.eigvalsh(Ev[nd:, nd:]).tolist(),
+                                   "relative spectral deviation": float(np.linalg.norm(Ev - Mv, 2) / np.linalg.norm(Mv[nd:, nd:], 2))}))
     return fails
 
 
